@@ -23,7 +23,7 @@ theorem C12_refuses_modifiers (p : Path) (h : p.datum ≠ .none ∨ p.multi ≠ 
 /-- soundness: whatever is emitted describes, part by part, a part equal to the original one -/
 theorem C12_sound (p : Path) (specs : List PyVal) (h : toPartSpecs p = .ok specs) :
     specs.length = p.parts.length ∧
-    (∀ i part spec, p.parts[i]? = some part → specs[i]? = some spec → SpecFor part spec) ∧
+    (∀ (i : Nat) (part : Part) (spec : PyVal), p.parts[i]? = some part → specs[i]? = some spec → SpecFor part spec) ∧
     p.datum = .none ∧ p.multi = .none ∧ p.source = none ∧
     (p.concrete = false → ∃ kvs, PyVal.dict kvs ∈ specs) := by
   sorry
